@@ -269,7 +269,7 @@ def run(ctx):
                 vc = SymArr(_sym_complex("c", (2 * n,)), "complex")
                 lam0 = SC(Poly.atom("lre"), Poly.atom("lim"))
 
-                def s_pc(it, M, **kw):
+                def s_pc(it, M, *a, **kw):          # (options may be forwarded positionally or by keyword)
                     return lam0, vc.copy(), [Poly.atom("res0")]
 
                 def chooser(interp, node, cond, u_ge_w=u_ge_w):
